@@ -8,7 +8,7 @@ PROP = 'C10'
 TARGETS = ['Props/C10.vo', 'Corr/XTree.vo']
 PROPS_FILE = 'Props/C10.v'
 RULE = ('histories of 2-6 saves into one file over 4 root names: whole trees by append / append-over / write-to-absent, targeted '
-        'appends into an existing tree, list and tuple saves mixing given roots, rooted nodes (direct children), unrooted nodes, '
+        'appends into an existing tree (also with an emdpath under every write / overwrite / append spelling), list and tuple saves mixing given roots, rooted nodes (direct children), unrooted nodes, '
         'numpy arrays and dicts (incl. user names colliding with the automatic array_<i> names), in any order; after every step the '
         'abstract content of every top-level tree, the header and the UUID are compared; reads without a path and by each root name; '
         'non-trivial = distinct histories with at least two trees in the file at the end')
@@ -30,7 +30,7 @@ def cases(seed, tier):
         steps = []
         present = set()
         for j in range(rng.choice([2, 3, 4, 6])):
-            k = rng.choice(['root', 'root', 'list', 'list', 'target', 'arr', 'dict'])
+            k = rng.choice(['root', 'root', 'list', 'list', 'target', 'emd', 'arr', 'dict'])
             mode = rng.choice(['a', 'ao', 'append', '+o']) if steps else rng.choice(['w', 'a', 'ao', 'o'])
             if k == 'root':
                 t = rng.randrange(4)
@@ -41,6 +41,15 @@ def cases(seed, tier):
                 ps = [p for p in T.all_paths(tops[t]) if p]
                 if ps:
                     steps.append({'op': 'save', 'file': 0, 'top': t, 'tp': rng.choice(ps), 'mode': mode, 'tree': rng.choice([True, False, None])})
+            elif k == 'emd' and [x for x in present if x in RN] and steps:
+                # a targeted save: with an emdpath every write / overwrite spelling means append (the docstring's rule)
+                t = RN.index(rng.choice(sorted(x for x in present if x in RN)))
+                ps = [p for p in T.all_paths(tops[t]) if p]
+                if ps:
+                    tp = rng.choice(ps)
+                    ep = rng.choice([tp, tp[:-1]])
+                    steps.append({'op': 'save', 'file': 0, 'top': t, 'tp': tp, 'mode': rng.choice(['a', 'w', 'write', 'o', 'overwrite', 'ao', 'append']),
+                                  'tree': rng.choice([True, False, None]), 'emdpath': '/'.join([RN[t]] + list(ep))})
             elif k == 'arr' and not steps:
                 steps.append({'op': 'save', 'file': 0, 'input': {'kind': 'arr', 'tok': T.fresh_tok(), 'rank': 2}, 'mode': mode, 'tree': True})
                 present.add('root')
@@ -123,7 +132,7 @@ def oracle(case, obs):
     header = None
     prev_slot = None
     for j, (st, o) in enumerate(zip(case['steps'], obs)):
-        where = f'step {j} ' + (f"save mode={st['mode']} " + (st['input']['kind'] if st.get('input') else f"top={st['top']} tp={st['tp']} tree={st['tree']}") if st['op'] == 'save' else f"read emdpath={st.get('emdpath')}")
+        where = f'step {j} ' + (f"save mode={st['mode']} " + (st['input']['kind'] if st.get('input') else f"top={st['top']} tp={st['tp']} tree={st['tree']} emdpath={st.get('emdpath')}") if st['op'] == 'save' else f"read emdpath={st.get('emdpath')}")
         if st['op'] == 'read':
             roots = sorted(E)
             if not o.get('sha_unchanged', True):
@@ -151,7 +160,7 @@ def oracle(case, obs):
             continue
         slot = o['slot']
         mode = st['mode']
-        fresh = mode in ('o', 'overwrite') or prev_slot is None or prev_slot[0] == 'Absent'
+        fresh = (mode in ('o', 'overwrite') and st.get('emdpath') is None) or prev_slot is None or prev_slot[0] == 'Absent'
         if fresh:
             E = {}
         old = dict(E)
